@@ -66,8 +66,14 @@ def concretize(v, model, maxlen=4096):
         return ("__obj__", dict((k, concretize(x, model)) for k, x in v.__dict__["_f"].items()))
     if isinstance(v, HSymList):
         return concretize(v.as_seq(), model)
-    if isinstance(v, (HSetList, HMap)):
-        raise ValueError("cannot concretize abstract container")
+    if isinstance(v, HMap):
+        out = {}
+        for k in range(0, 80):
+            if _mbool(model, z3.Select(v.has, z3.IntVal(k))):
+                out[k] = _mint(model, z3.Select(v.val, z3.IntVal(k)))
+        return out
+    if isinstance(v, HSetList):
+        return [k for k in range(-2, 300) if _mbool(model, z3.Select(v.sset.e, z3.IntVal(k)))]
     return v
 
 
@@ -360,6 +366,18 @@ def run_unit(modname, target, label, timeout_ms=10000, replay_dir=None, prop="C?
                                      "requires_ok": rp.get("requires_ok"),
                                      "found_by": "bounded native search after the solvers answered unknown on this obligation"}
             res["obligations"].append(rec)
+        if eng.undecided:
+            # constructs outside the verifier's subset: bounded native search so that a behavioural change
+            # hidden behind them is still found (labelled bounded; no finding -> the unit stays undecided)
+            found, tried = native_search(contract, config, budget_s=25.0)
+            res["native_search_after_undecided"] = tried
+            if found is not None:
+                inputs, rp = found
+                res["obligations"].append({"name": "%s/%s/bounded-native-search" % (prop, target.split(":")[1] + ("[" + label + "]" if label else "")),
+                                           "status": "refuted", "backend": "bounded native search", "time_s": 0, "line": 0, "confirmed": True,
+                                           "inputs": jsonable(inputs),
+                                           "replay": {"violated": rp["violated"], "result": rp.get("result"), "exception": rp.get("exception"),
+                                                      "found_by": "bounded native search: the unit contains constructs outside the verifier's subset (%s)" % eng.undecided[0][1][:120]}})
         if eng.covers == 0 and not eng.undecided:
             # the solver could not exhibit a reachable exit (quantified precondition): look for native witnesses
             res["covers_native"] = precondition_witnesses(contract, config)
